@@ -356,6 +356,9 @@ func genFileSet(r *rand.Rand, o mergeGenOpt) []*mfile {
 	for _, f := range files {
 		wild := r.Intn(2) == 0
 		f.L = &gen.Layout{R: r, Wild: wild, Comments: r.Intn(2) == 0, CRLF: wild && r.Intn(6) == 0}
+		if o.HostileText && r.Intn(5) == 0 {
+			f.L.CRLF = true // every line ends in CR LF: the raw lines of a textual lookup carry a trailing CR
+		}
 		if o.HostileText && r.Intn(40) == 0 {
 			f.L.Long = 66000 + r.Intn(3000) // declarations behind a line longer than 64 KiB
 		}
@@ -577,6 +580,7 @@ func isFirstDecl(files []*mfile, f *mfile, ti int) bool {
 type mergeErr struct {
 	Msg, File string
 	Line, Col int
+	ColEnd    int
 	Syntax    bool
 }
 
@@ -589,7 +593,7 @@ func flattenMergeErr(err error) ([]mergeErr, bool) {
 	for _, e := range me.Errors {
 		var se *transformer.ModuleTransformationSingleError
 		if errors.As(e, &se) {
-			out = append(out, mergeErr{Msg: se.Msg, File: se.File, Line: se.Line.Start, Col: se.Column.Start})
+			out = append(out, mergeErr{Msg: se.Msg, File: se.File, Line: se.Line.Start, Col: se.Column.Start, ColEnd: se.Column.End})
 		} else {
 			out = append(out, mergeErr{Msg: e.Error(), Syntax: true})
 		}
@@ -766,8 +770,14 @@ func checkMerge(run *core.Run, files []core.File, exp mergeExpect, r *rand.Rand,
 			}
 			// bounds
 			fl := strings.Split(byName[hit.File], "\n")
-			if hit.Line < 0 || hit.Line >= len(fl) || hit.Col < 0 || hit.Col > len(fl[hit.Line]) {
-				viol("C16", "merge-error-position-out-of-bounds", "inside the file", fmt.Sprintf("line %d col %d", hit.Line, hit.Col))
+			if hit.Line < 0 || hit.Line >= len(fl) || hit.Col < 0 || hit.Col > len(fl[hit.Line]) || hit.ColEnd < hit.Col || hit.ColEnd > len(fl[hit.Line]) {
+				viol("C16", "merge-error-position-out-of-bounds", "inside the file", fmt.Sprintf("line %d columns %d..%d (line has %d bytes)", hit.Line, hit.Col, hit.ColEnd, len(fl[min2(max2(hit.Line, 0), len(fl)-1)])))
+			} else if hit.ColEnd > hit.Col {
+				// "on the offending text": a column range, when one is given, covers the conflicting name
+				run.Count("merge_column_ranges_checked", 1)
+				if got := fl[hit.Line][hit.Col:hit.ColEnd]; got != cf.Name {
+					viol("C16", "merge-error-columns-not-on-the-name:"+cf.Kind, fmt.Sprintf("columns covering %q", cf.Name), fmt.Sprintf("line %d columns %d..%d cover %q in %q", hit.Line, hit.Col, hit.ColEnd, got, fl[hit.Line]))
+				}
 			}
 		}
 	default: // success as expected
@@ -939,6 +949,8 @@ func runMerge(run *core.Run) {
 			o.Conflicts = []int{0, 0, 1, 2, 2, 3}[r.Intn(6)]
 		default:
 			o.Conflicts = []int{0, 0, 0, 1, 1, 2, 3}[r.Intn(7)]
+			// two entries of the list may carry the same Name (the merger keys its maps by it); C16 keeps unique names
+			o.DupNames = run.Prop == "C07" && r.Intn(5) == 0
 		}
 		files := genFileSet(r, o)
 		exp := mergeOracle(files, schemaPool[r.Intn(len(schemaPool))])
@@ -973,4 +985,11 @@ func replayMerge(run *core.Run, c *core.Case) {
 		return
 	}
 	checkMerge(run, c.Files, exp, run.Rng("replay", 0), 40)
+}
+
+func max2(a, b int) int {
+	if a > b {
+		return a
+	}
+	return b
 }
